@@ -196,7 +196,13 @@ def step (st : St) (_n : Nat) (line : String) : St × List Finding :=
       if !shape.isEmpty then (st, shape) else
       let upSeid := getNat obs "up"
       let live := (st.w.conn a).sessions.map (·.lseid)
-      let (w', r) := establish st.cfg st.w a upSeid req
+      -- the pool is a queue in the code; after several sessions ended at once its order depends on map iteration:
+      -- take the observed address as the (admissible) choice when it is free in the model
+      let obsUE : Option Nat := ((created obs).filterMap (·.ue)).head?
+      let w0 : World := match obsUE, st.w.pool with
+        | some ua, some pl => if pl.free.contains ua then { st.w with pool := some { pl with free := ua :: pl.free.erase ua } } else st.w
+        | _, _ => st.w
+      let (w', r) := establish st.cfg w0 a upSeid req
       let st' := { st with w := w' }
       let fs := replyFindings obs r ++
         (if getNat obs "cause" = 1 then
@@ -325,6 +331,38 @@ def step (st : St) (_n : Nat) (line : String) : St × List Finding :=
       if !getBool obs "alive" then (st, [⟨"C01", s!"agent died: {getStr obs "crash"}"⟩])
       else if getNat obs "n" != 0 then (st, [⟨"C02", s!"a response-type message (type {getNat j "type"}) was answered with {getNat obs "n"} datagram(s)"⟩])
       else (st, [])
+    | "report65" =>
+      let a := getNat j "a"
+      let seid := getNat j "seid"
+      let known := (st.w.conn a).sessions.any (·.lseid = seid)
+      let st' := { st with w := reportContextNotFound st.cfg st.w a seid, ended := if known then seid :: st.ended else st.ended }
+      let (st'', tf) := tableFindings st' obs true "report-context-not-found"
+      (st'', (if !getBool obs "alive" then [⟨"C01", s!"agent died: {getStr obs "crash"}"⟩] else []) ++
+             (if getNat obs "n" != 0 then [⟨"C02", "a Session Report Response was answered"⟩] else []) ++ tf)
+    | "gone" =>
+      -- the association ended by read timeout or heartbeat failure
+      let a := getNat j "a"
+      let sess := (st.w.conn a).sessions.map (·.lseid)
+      let st' := { st with w := shutdownConn st.cfg st.w a, ended := sess ++ st.ended }
+      let (st'', tf) := tableFindings st' obs true s!"ended-by-{getStr j "how"}"
+      (st'', (if !getBool obs "alive" then [⟨"C01", s!"agent died: {getStr obs "crash"}"⟩] else []) ++ tf)
+    | "stats" =>
+      let so := (getObj? obs "stats").getD Json.null
+      let live := st.w.conns.flatMap (·.2.sessions)
+      let wantHeld := (live.filter fun s => s.pdrs.any (·.allocIP)).length
+      let wantTeid := (live.flatMap fun s => s.pdrs.filter (·.chooseTeid)).length
+      let modelHeld := (st.w.pool.map (·.inv.length)).getD 0
+      let (st', tf) := tableFindings st obs true "stats"
+      (st', (if !getBool obs "alive" then [⟨"C01", "agent died"⟩] else
+        (if st.w.pool.isSome ∧ getNat so "pool_held" != wantHeld then
+          [⟨"C05", s!"{getNat so "pool_held"} UE addresses are held but {wantHeld} live sessions hold one (addresses not returned)"⟩] else []) ++
+        (if getNat so "teid_used" != wantTeid then
+          [⟨"C05", s!"{getNat so "teid_used"} TEIDs are in use but the live sessions have {wantTeid} UP-chosen TEIDs (TEIDs not returned)"⟩] else []) ++
+        (if getNat so "sessions" != live.length then
+          [⟨"C05", s!"the store holds {getNat so "sessions"} session records, {live.length} sessions are live"⟩] else []) ++
+        (if getNat so "gauge" != live.length then
+          [⟨"C05", s!"the pfcp_sessions gauge reads {getNat so "gauge"} with {live.length} live sessions"⟩] else []) ++
+        (if st.w.pool.isSome ∧ getNat so "pool_held" != modelHeld then [⟨"model", s!"pool holds {getNat so "pool_held"}, model {modelHeld}"⟩] else [])) ++ tf)
     | "note" => (st, [])
     | k => (st, [⟨"bad", s!"unknown event {k}"⟩])
 
